@@ -16,6 +16,10 @@ Fixpoint expr_ok (e : expr) : Prop :=
   | EBin _ a b => expr_ok a /\ expr_ok b
   | ECall _ args => (fix go (l : list expr) : Prop := match l with [] => True | a :: r => expr_ok a /\ go r end) args
   | ECond c a b => expr_ok c /\ expr_ok a /\ expr_ok b
+  | EArr es => (N.of_nat (length es) < 65536)%N /\       (* the element count is a u16 operand of ARR_LITERAL *)
+               (fix go (l : list expr) : Prop := match l with [] => True | a :: r => expr_ok a /\ go r end) es
+  | EAt a i => expr_ok a /\ expr_ok i
+  | ELen a => expr_ok a
   end.
 Definition exprs_ok : list expr -> Prop :=
   fix go (l : list expr) : Prop := match l with [] => True | a :: r => expr_ok a /\ go r end.
@@ -32,6 +36,22 @@ Fixpoint stmt_ok (s : stmt) : Prop :=
   | SReturn (Some e) | SPrint _ e | SAssert e | SExpr e => expr_ok e
   end.
 
+(* expr_ok / stmt_ok contain the literal-size condition the well-formedness of the emitted code needs *)
+Lemma expr_ok_lit_small e : expr_ok e -> lit_small e.
+Proof.
+  induction e as [z|b|s|x|o a IHa|o a b IHa IHb|f args IHargs|c0 a b IHc IHa IHb|es IHes|a i IHa IHi|a IHa] using expr_ind2;
+    cbn [expr_ok lit_small]; try tauto.
+  - induction IHargs as [|a r Ha _ IH]; [tauto|]. intros [H1 H2]. split; [apply Ha; exact H1|apply IH; exact H2].
+  - intros [Hn H]. split; [exact Hn|]. clear Hn. induction IHes as [|a r Ha _ IH]; [exact I|].
+    destruct H as [H1 H2]. split; [apply Ha; exact H1|apply IH; exact H2].
+Qed.
+Lemma stmt_ok_lits_small s : stmt_ok s -> lits_small s.
+Proof.
+  induction s as [ |s1 IH1 s2 IH2|m x t e|x e|c0 s1 IH1 s2 IH2|c0 body IHb|x lo hi body IHb| | |[e|]|nl e|e|e];
+    cbn [stmt_ok lits_small]; try tauto; intros; repeat match goal with HH : _ /\ _ |- _ => destruct HH end;
+    repeat split; auto using expr_ok_lit_small.
+Qed.
+
 Definition fn_ok (d : fn) : Prop := Forall (fun p => user_name (fst p)) (fparams d) /\ stmt_ok (fbody d).
 
 (* only used by SFor: the VM keeps the loop index in an int64, the reference counts in Z *)
@@ -44,6 +64,7 @@ Definition rpost {A} (P : A -> list N -> mres -> Prop) (r : res A) : mres -> Pro
   match r with
   | Ok a o => P a o
   | Fault FAssert o => fun m => m = MErr EAssert o
+  | Fault FOob o => fun m => m = MErr EOob o            (* an out-of-range (at a i) traps *)
   | _ => fun _ => True
   end.
 
@@ -66,7 +87,7 @@ Lemma rpost_bind {A B} (P1 : A -> list N -> mres -> Prop) (P2 : B -> list N -> m
 Proof.
   intros H K. destruct r1 as [a o|f o| |]; cbn [bind rpost] in *.
   - eapply Reach_bind; [exact H|]. intros m Hm. apply K; auto.
-  - destruct f; try apply Reach_trivial. exact H.
+  - destruct f; try apply Reach_trivial; exact H.
   - apply Reach_trivial.
   - apply Reach_trivial.
 Qed.
